@@ -89,44 +89,68 @@ func c07Order(e *Env) {
 	info := norm.Pkg.TypesInfo
 	fname := w.FuncName(norm.Obj)
 	src := norm.Obj.Type().(*types.Signature).Params().At(1)
-	var decodes []*ast.CallExpr
+	// events are looked for in the normaliser and, one level down, in the helpers of the package
+	// it calls (a cut loop moved into its own function happens where that function is called)
+	type decodeEv struct {
+		call *ast.CallExpr // the decoding call itself
+		info *types.Info
+		at   token.Pos // position in the normaliser
+		top  bool      // directly in the normaliser
+	}
+	var decodes []decodeEv
 	cuts := map[string]token.Pos{}
 	var firstCut token.Pos
 	var leading token.Pos
-	ast.Inspect(norm.Decl.Body, func(n ast.Node) bool {
-		call, ok := n.(*ast.CallExpr)
-		if !ok {
-			return true
-		}
-		f := calleeOf(info, call)
-		if f == nil {
-			return true
-		}
-		switch {
-		case esp.Is(f, pkgProto, "", "decodeArgAppendNoPlus"), esp.Is(f, pkgProto, "", "decodeArgAppend"):
-			decodes = append(decodes, call)
-		case esp.Is(f, pkgProto, "", "addLeadingSlash"):
-			leading = call.Pos()
-		case f.Pkg() != nil && f.Pkg().Path() == "bytes" && (f.Name() == "Index" || f.Name() == "LastIndex") && len(call.Args) == 2:
-			if s, ok := constBytesExpr(w, info, call.Args[1]); ok {
-				if _, dup := cuts[s]; !dup {
-					cuts[s] = call.Pos()
+	var visit func(body *ast.BlockStmt, binfo *types.Info, at token.Pos, depth int)
+	visit = func(body *ast.BlockStmt, binfo *types.Info, at token.Pos, depth int) {
+		ast.Inspect(body, func(n ast.Node) bool {
+			call, ok := n.(*ast.CallExpr)
+			if !ok {
+				return true
+			}
+			f := calleeOf(binfo, call)
+			if f == nil {
+				return true
+			}
+			pos := at
+			if depth == 0 {
+				pos = call.Pos()
+			}
+			switch {
+			case esp.Is(f, pkgProto, "", "decodeArgAppendNoPlus"), esp.Is(f, pkgProto, "", "decodeArgAppend"):
+				decodes = append(decodes, decodeEv{call, binfo, pos, depth == 0})
+			case esp.Is(f, pkgProto, "", "addLeadingSlash"):
+				if !leading.IsValid() || pos < leading {
+					leading = pos
 				}
-				if !firstCut.IsValid() || call.Pos() < firstCut {
-					firstCut = call.Pos()
+			case f.Pkg() != nil && f.Pkg().Path() == "bytes" && (f.Name() == "Index" || f.Name() == "LastIndex") && len(call.Args) == 2:
+				if s, ok := constBytesExpr(w, binfo, call.Args[1]); ok {
+					if _, dup := cuts[s]; !dup {
+						cuts[s] = pos
+					}
+					if !firstCut.IsValid() || pos < firstCut {
+						firstCut = pos
+					}
+				}
+			default:
+				if depth == 0 {
+					if d := w.DeclOf(f); d != nil && d.Pkg == norm.Pkg && d.Decl.Body != nil && d.Obj != norm.Obj {
+						visit(d.Decl.Body, d.Pkg.TypesInfo, call.Pos(), 1)
+					}
 				}
 			}
-		}
-		return true
-	})
+			return true
+		})
+	}
+	visit(norm.Decl.Body, info, token.NoPos, 0)
 	r.Check(len(decodes) == 1, rule, fname+":one-decode", w.Pos(norm.Decl.Pos()), "the path is percent-decoded exactly once", fmt.Sprintf("%d decoding calls in the normaliser", len(decodes)))
 	if len(decodes) >= 1 {
 		d := decodes[0]
-		r.Check(esp.Is(calleeOf(info, d), pkgProto, "", "decodeArgAppendNoPlus"), rule, fname+":decode-no-plus", w.Pos(d.Pos()), "path decoding leaves '+' alone", "the path is decoded with the query variant that maps '+' to space")
-		r.Check(len(d.Args) == 2 && usedVar(info, d.Args[1]) == src, rule, fname+":decode-source", w.Pos(d.Pos()), "the decoder reads the source path parameter", "decode input is not the source parameter")
+		r.Check(esp.Is(calleeOf(d.info, d.call), pkgProto, "", "decodeArgAppendNoPlus"), rule, fname+":decode-no-plus", w.Pos(d.call.Pos()), "path decoding leaves '+' alone", "the path is decoded with the query variant that maps '+' to space")
+		r.Check(d.top && len(d.call.Args) == 2 && usedVar(info, d.call.Args[1]) == src, rule, fname+":decode-source", w.Pos(d.call.Pos()), "the decoder reads the source path parameter", "decode input is not the source parameter of the normaliser")
 		last := decodes[len(decodes)-1]
-		r.Check(firstCut.IsValid() && last.Pos() < firstCut, rule, fname+":decode-before-cut", w.Pos(d.Pos()), "decoding precedes every segment resolution", "a percent-decode happens at or after the first segment cut: an encoded `..` survives resolution")
-		r.Check(leading.IsValid() && leading < d.Pos(), rule, fname+":leading-slash", w.Pos(norm.Decl.Pos()), "a leading slash is ensured before decoding", "no addLeadingSlash before the decode")
+		r.Check(firstCut.IsValid() && last.at < firstCut, rule, fname+":decode-before-cut", w.Pos(d.call.Pos()), "decoding precedes every segment resolution", "a percent-decode happens at or after the first segment cut: an encoded `..` survives resolution")
+		r.Check(leading.IsValid() && leading < d.at, rule, fname+":leading-slash", w.Pos(norm.Decl.Pos()), "a leading slash is ensured before decoding", "no addLeadingSlash before the decode")
 	}
 	// every return lies behind the last resolution step: an early return skips it
 	var lastCut token.Pos
